@@ -9,6 +9,7 @@ from ..protocol.messages.json_rpc_message import (
 )
 from ..protocol.types.info import ServerInfo
 from ..protocol.types.capabilities import ServerCapabilities
+from ..protocol.types.versioning import CURRENT_VERSION, ProtocolVersion
 from .session.memory import SessionManager
 
 
@@ -92,6 +93,11 @@ class ProtocolHandler:
         params = getattr(message, "params", None) or {}
         client_info = params.get("clientInfo", {})
         protocol_version = params.get("protocolVersion", "2025-03-26")
+        # Never acknowledge a version we do not support: counter-propose ours
+        if not isinstance(protocol_version, str) or not ProtocolVersion.is_supported(
+            protocol_version
+        ):
+            protocol_version = CURRENT_VERSION
 
         # Create session
         new_session_id = self.session_manager.create_session(
